@@ -387,6 +387,8 @@ def gen_spec(seed, profile=None):
     if method == 'customers':
         run['n'] = r.randint(1, P('max_customers', 40))
         run['cmethod'] = r.choice(['Complete', 'Finish', 'Arrive', 'Accept'])
+        if P('p_again', 0.0) > 0:   # own stream: specs of profiles without p_again are unchanged
+            run['again'] = random.Random(seed * 13 + 5).random() < P('p_again', 0.0)
     spec['run'] = run
     spec['tie'] = r.choice(P('tie_policies', ['native']))
     return spec
